@@ -188,12 +188,18 @@ def rand_iface_spec(r, tt, backend):
         if nm not in taken:
             taken.add(nm)
             structs.append((nm, []))
+    enums = []
+    if r.random() < 0.3:
+        # enumerations of the interface: declared through the <<<ENUMS>>> tag - a global tag with a multi-line value
+        for k in range(r.randint(1, 2)):
+            en = "E" + camel(r) + str(k)
+            enums.append((en, [(en.upper() + "_%d" % j, j if r.random() < 0.7 else 10 * j + 1) for j in range(r.randint(1, 3))]))
     usertags = {}
     if r.random() < 0.4:
         usertags["StateMachineThread"] = r.choice([0, 1])
     if r.random() < 0.3:
         usertags["Verbose"] = r.choice([0, 1])
-    return dict(structs=structs, usertags=usertags)
+    return dict(structs=structs, usertags=usertags, enums=enums)
 
 
 def build_iface(kt, spec, name="IEvents"):
@@ -203,6 +209,11 @@ def build_iface(kt, spec, name="IEvents"):
         for m, t, d in mem:
             s.AddType(m, t, d)
         itf.AddStruct(s)
+    for en, lits in spec.get("enums", []):
+        e = kt.Enum(en)
+        for ln, lv in lits:
+            e.Add(ln, lv)
+        itf.AddEnum(e)
     for k, v in spec.get("usertags", {}).items():
         itf.AddUserTag(k, v)
     return itf
